@@ -384,6 +384,8 @@ def run_shard(shard, tier):
                 if not T.generated(term, scope):
                     continue
                 for mode in modes:
+                    if mode == "fresh" and "Q" in kinds:
+                        continue        # the first iterable would read an unbound name
                     before = len(acc.disagreements) + acc.counts.get("disagreements_not_listed(sig already has 25 in this shard)", 0)
                     check_case(acc, term, scope, mode, fast=True,
                                sample=(idx % 397 == 11 and vi == 1 and scope == "function" and mode == "fresh"))
